@@ -554,7 +554,7 @@ func ruleC36(c *Ctx) {
 					continue
 				}
 				for _, og := range valueOrigins(canon(ri.Ret.Results[ri.ErrIdx]), ri.Ret) {
-					have := factsAt(og.at)
+					have := originFacts(og)
 					if !have["call:(*net/http/authn.API).localhostAuthn = false"] || !have["call:strings.HasPrefix = true"] {
 						continue
 					}
